@@ -1,0 +1,13 @@
+//go:build verif
+
+package engine
+
+// VerifSink receives one event per linearization point of the use() linker when a
+// verification harness installs it (build tag verif only; nil otherwise).
+var VerifSink func(ev string, a ...any)
+
+func verifEv(ev string, a ...any) {
+	if VerifSink != nil {
+		VerifSink(ev, a...)
+	}
+}
